@@ -29,6 +29,7 @@ func isCallNamed(t *Term, name string) bool {
 func runC06(c *Ctx) {
 	runC06SessionWiring(c)
 	runC06ResolverQueues(c)
+	runC06AnnotationSetters(c)
 	p, fx := c.P, c.Fx
 
 	// ---- O1/O2: victim filters of preempt and consolidation (closures returned by the filter builders)
@@ -871,4 +872,41 @@ func runC06ResolverQueues(c *Ctx) {
 			"the resolver is constructed with "+trunc(t.String(), 80)+", which is not (yet) the session's queue map: min-runtimes configured on non-leaf queues are not found, and protected workloads are evicted inside their min runtime")
 	}
 	c.Floor("O15", "PROV resolver constructions", n, 1)
+}
+
+// runC06AnnotationSetters (O16): the min-runtime protection reads a workload's LastStartTimestamp from the PodGroup's
+// annotation, which the status updater writes. In updatePodGroupAnnotations every annotation setter (a callee that
+// writes the PodGroup's annotations) runs on every path — a setter evaluated as the right operand of `&&` / `||` is
+// skipped whenever the left one already decided, so a restart in the cycle in which the stale mark changes is never
+// recorded and the workload looks as if its minimum runtime were long over.
+func runC06AnnotationSetters(c *Ctx) {
+	f := c.Anchor("O16", "pkg/scheduler/cache/status_updater", "defaultStatusUpdater", "updatePodGroupAnnotations")
+	if f == nil {
+		return
+	}
+	writesAnnotations := func(in ssa.Instruction) bool {
+		switch x := in.(type) {
+		case *ssa.MapUpdate:
+			return termOf(x.Map).lastField() == "Annotations"
+		case ssa.CallInstruction:
+			if bi, ok := x.Common().Value.(*ssa.Builtin); ok && bi.Name() == "delete" {
+				return termOf(x.Common().Args[0]).lastField() == "Annotations"
+			}
+		}
+		return false
+	}
+	n := 0
+	seen := map[*ssa.Function]bool{}
+	for _, in := range instrsIn(f, func(in ssa.Instruction) bool { _, ok := in.(ssa.CallInstruction); return ok }) {
+		cal := in.(ssa.CallInstruction).Common().StaticCallee()
+		if cal == nil || seen[cal] || len(cal.Blocks) == 0 || !hasModPrefix(cal) || !c.P.reachesInstr(cal, writesAnnotations, 2, map[*ssa.Function]bool{}) {
+			continue
+		}
+		seen[cal] = true
+		n++
+		_, path, found := reachAvoiding([]cfgPos{entryPos(f)}, isReturn, isCallToFn(cal), nil)
+		c.Check(!found, "O16", "MPT", funcKey(f)+": "+cal.Name()+" runs on every path", instrPos(in), "no exit before the setter",
+			"the annotation setter "+cal.Name()+" is skipped on some path ("+pathStr(path)+"), e.g. as the right operand of a short-circuit: the PodGroup's last-start-timestamp (or stale timestamp) is not recorded in that cycle, and the min-runtime protection of the next cycles works with the time of an earlier run")
+	}
+	c.Floor("O16", "MPT annotation setters of the status updater", n, 2)
 }
